@@ -40,6 +40,9 @@ func inRegion(region []*ssa.BasicBlock, b *ssa.BasicBlock) bool {
 }
 
 func isSortCall(name string) bool {
+	if i := strings.Index(name, "["); i > 0 {
+		name = name[:i] // an instantiation of a generic function
+	}
 	switch name {
 	case "sort.Strings", "sort.Ints", "sort.Float64s", "sort.Slice", "sort.SliceStable", "sort.Sort", "sort.Stable",
 		"slices.Sort", "slices.SortFunc", "slices.SortStableFunc":
